@@ -300,7 +300,7 @@ pub fn gen_func(
 }
 
 /// The CFI rows a compiler emits for the function: the row in force before each instruction.
-fn compute_rows(arch: Arch, f: &Func) -> Vec<RowSpec> {
+pub fn compute_rows(arch: Arch, f: &Func) -> Vec<RowSpec> {
     let mut rows = Vec::new();
     match arch {
         Arch::X64 => {
